@@ -280,6 +280,17 @@ def adjustRefLoop (env : Env) : Str → List (Option Str) → List Token → Str
 def adjustRef (env : Env) (toks : List Token) : Str × Option Err :=
   adjustRefLoop env [] (arrayMarks [] none toks) toks
 
+/-- one iteration of the loop of `adjustDefinedNames`: the name's text is rewritten with
+`keepRelative = true` and an empty formula sheet; when the rewrite fails the text is kept -/
+def adjustDefinedName (sheet : Str) (e : Edit) (names : List Str) (d : Str × List Token) : Str :=
+  match adjustRef ⟨sheet, [], true, e, names, d.1⟩ d.2 with
+  | (val, none) => val
+  | (_, some _) => d.1
+
+/-- `adjustDefinedNames`: the loop goes over ALL names of the workbook, a failure does not end it -/
+def adjustDefinedNames (sheet : Str) (e : Edit) (names : List Str) (ds : List (Str × List Token)) : List Str :=
+  ds.map (adjustDefinedName sheet e names)
+
 end Impl
 
 namespace Spec
